@@ -44,6 +44,6 @@ Theorem C15_catalogue : forall chk szs n e, entry chk szs n = Some e -> n <> 21%
   exists (SP : RSpec (mr e)) (IS : ISpec (mi e)),
     forall C, m_ord e = Some C -> @ItemOrdOK (mr e) SP (mi e) IS C.
 Proof.
-  intros chk szs n e He H21 H29. destruct (catalogue_full chk szs He H21 H29) as (SP & IS & _ & _ & HO).
+  intros chk szs n e He H21 H29. destruct (catalogue_full chk szs He H21 H29) as (SP & IS & _ & _ & HO & _).
   exists SP, IS. exact HO.
 Qed.
